@@ -295,7 +295,7 @@ def run(ctx):
     ctx.rule = RULE
     ctx.assumptions = ["model of the documented guard semantics (conjunction of conditions, suppression iff some condition is 0)"]
     if ctx.tier == "quick":
-        jobs = [dict(seed=ctx.seed * 1000 + i, n_examples=60, steps=30) for i in range(16)]
+        jobs = [dict(seed=ctx.seed * 1000 + i, n_examples=150, steps=30) for i in range(16)]
     else:
         jobs = [dict(seed=ctx.seed * 1000 + 100 + i, n_examples=2000, steps=60) for i in range(16)]
     ctx.stats = core.run_shards("harness.checks.c08", "shard", jobs)
